@@ -719,6 +719,9 @@ pub fn interesting_positions_after_zeros(z: u64, data: &[u8], min_level: u8) -> 
         let r1 = m.roll.sum().wrapping_add(1);
         if r1 != 0 && r1 % 3 == 0 && (r1 / 3).trailing_zeros() >= min_level as u32 {
             bounds.push(p);
+        } else if r1 == 1 && c != 0 {
+            // rolling value 0 although the window is not all zeros
+            bounds.push(p);
         }
     }
     (elim, bounds)
